@@ -428,6 +428,7 @@ type refPeer struct {
 	dec     *refwire.RC4
 	pos     int // first unconsumed byte of h.rbuf
 	PeerID  []byte
+	IAShort bool // the harness, as initiator, put less than the whole BT handshake in IA and sent the rest as payload
 }
 
 func randBytes(rng *rand.Rand, n int) []byte {
@@ -469,7 +470,10 @@ func refHandshake(h *hrun, role string, val uint32, rng *rand.Rand) *refPeer {
 		return true
 	}
 	if role == "server" {
-		ini := &refwire.MSEInitiator{Priv: priv, SKey: infoHash, PadA: randBytes(rng, rng.IntN(513)), PadC: randBytes(rng, rng.IntN(513)), Provide: val, IA: myHS}
+		// The initial payload may be all of the BT handshake (what storrent's own client sends), a prefix of it, or
+		// empty: the rest then follows as ordinary payload in the selected mode once step 4 has been read.
+		iaLen := []int{68, 68, 68, 0, 1, 19, 20, 48}[rng.IntN(8)]
+		ini := &refwire.MSEInitiator{Priv: priv, SKey: infoHash, PadA: randBytes(rng, rng.IntN(513)), PadC: randBytes(rng, rng.IntN(513)), Provide: val, IA: myHS[:iaLen]}
 		if h.write(ini.Step1()) != nil {
 			p.Err = "closed during step 1"
 			return p
@@ -513,6 +517,13 @@ func refHandshake(h *hrun, role string, val uint32, rng *rand.Rand) *refPeer {
 		default:
 			p.Err = fmt.Sprintf("storrent's crypto_select = %#x", ini.Select)
 			return p
+		}
+		if iaLen < len(myHS) {
+			if p.send(append([]byte(nil), myHS[iaLen:]...)) != nil {
+				p.Err = "closed during the BT handshake"
+				return p
+			}
+			p.IAShort = true
 		}
 		reply, ok := p.recv(68)
 		if !ok {
@@ -681,6 +692,9 @@ func refCell(c *vk.C, seen map[string]bool, role string, oi int, val uint32, rng
 		table = "refwire-server"
 	}
 	c.Count(table+"_cells", 1)
+	if p.IAShort {
+		c.Count("initiator_ia_prefix_handshakes", 1)
+	}
 	rep := map[string]any{"table": table, "storrent_role": role, "storrent_options": optsName(o), "options_index": oi,
 		"value_hex": fmt.Sprintf("%#x", val), "storrent_error": st.Err, "harness": p.Err}
 	emit := func(kind, sig, detail string) {
